@@ -74,6 +74,8 @@ type vWorld struct {
 	wok     bool
 	sendRes string
 	curSid  uint32
+	dialGate chan struct{} // non-nil: the next io.UDP call blocks on it
+	dialHeld bool          // an io.UDP call is blocked right now
 	socks   []*vConn
 	recvCh  chan *protocol.UDPMessage
 	lost    chan struct{}
@@ -208,6 +210,15 @@ func (w *vWorld) Hook(data []byte, reqAddr *string) error {
 func (w *vWorld) UDP(reqAddr string) (UDPConn, error) {
 	w.mu.Lock()
 	defer w.mu.Unlock()
+	if g := w.dialGate; g != nil {
+		// a slow dial (name resolution, slow hook): block until the harness lets it finish
+		w.dialGate = nil
+		w.dialHeld = true
+		w.mu.Unlock()
+		<-g
+		w.mu.Lock()
+		w.dialHeld = false
+	}
 	if w.denied(reqAddr) || w.dialErr {
 		w.logf("dial", 0, "dial,%s,fail", aOut(reqAddr))
 		delete(w.hookedTo, w.curSid)
@@ -620,6 +631,91 @@ func (h *vHist) do(op string) (res vh.Result) {
 		h.learn(m.SessionID, evs, true)
 		res.ModelOp = op + " " + victimOf(before, e)
 		res.Out, res.NonTrivial = h.result(evs, "")
+	case "slowdial":
+		// A datagram whose dial (if one happens) is still in flight when the sweep that finds the entry
+		// idle fires: deliver the datagram with io.UDP blocked, let virtual time run to that sweep tick,
+		// give the sweeper the chance to act (it either closes the entry — if the code does not hold
+		// connLock across the dial — or blocks on connLock), then let the dial finish and wait.
+		// Only the census is compared (the order of the sweeper's close and the receive loop's write is
+		// a real race), so the outcome line carries no events.
+		if len(f) != 10 {
+			return bad
+		}
+		m, err := parseMsg(f[1:7])
+		if err != nil || !h.setEnv(f[7], f[8], f[9]) {
+			return bad
+		}
+		if h.held != nil || h.down {
+			return vh.Result{Out: "busy", ModelOp: op + " _ ."}
+		}
+		t0 := h.now()
+		tk := (time.Duration(int64(t0+h.timeout)/int64(vInterval)) + 1) * vInterval // first sweep that finds Last = t0 idle
+		before := cacheKeys(h.lookupEntry(m.SessionID))
+		gate := make(chan struct{})
+		h.w.mu.Lock()
+		h.w.dialGate = gate
+		h.w.mu.Unlock()
+		h.feedMsg(m, nil)
+		entry := h.lookupEntry(m.SessionID)
+		time.Sleep(tk - t0) // wakes at the same instant as the sweeper's ticker
+		h.w.mu.Lock()
+		heldAtTick := h.w.dialHeld
+		h.w.mu.Unlock()
+		for i := 0; heldAtTick && i < 20000; i++ {
+			runtime.Gosched()
+			h.w.mu.Lock()
+			closedSeen := false
+			for _, e := range h.w.evs {
+				if e.kind == "logclose" && e.sid == m.SessionID && e.at == tk {
+					closedSeen = true
+				}
+			}
+			h.w.mu.Unlock()
+			if closedSeen || (i%64 == 63 && closerBlockedOnLock()) {
+				break
+			}
+		}
+		h.w.mu.Lock()
+		h.w.dialGate = nil
+		h.w.mu.Unlock()
+		close(gate)
+		synctest.Wait()
+		evs := h.drain()
+		// expectation: as a msg at t0 followed by the sweeps up to tk
+		x := h.exp[m.SessionID]
+		if x == nil {
+			x = &sessExp{k: -1}
+			h.exp[m.SessionID] = x
+		}
+		x.last = t0
+		for _, e := range evs {
+			if (e.kind == "hook" && strings.HasSuffix(e.text, ",E")) || (e.kind == "dial" && strings.HasSuffix(e.text, ",fail")) {
+				delete(h.exp, m.SessionID)
+			}
+		}
+		first := int(t0/vInterval) + 1
+		last := int(tk / vInterval)
+		groups := make([]string, 0, 4)
+		for n := first; n <= last; n++ {
+			var ids []string
+			for _, e := range evs {
+				if e.kind == "logclose" && e.at == time.Duration(n)*vInterval {
+					ids = append(ids, strconv.FormatUint(uint64(e.sid), 10))
+				}
+			}
+			if len(ids) == 0 {
+				groups = append(groups, ".")
+			} else {
+				groups = append(groups, strings.Join(ids, ","))
+			}
+			for sid, y := range h.exp {
+				if time.Duration(n)*vInterval-y.last > h.timeout {
+					delete(h.exp, sid)
+				}
+			}
+		}
+		res.ModelOp = op + " " + victimOf(before, entry) + " " + strings.Join(groups, "/")
+		res.Out, res.NonTrivial = "slow | "+h.summary(), heldAtTick
 	case "hold":
 		if len(f) != 7 {
 			return bad
@@ -896,6 +992,19 @@ func udpGoroutines() []string {
 	}
 	sort.Strings(out)
 	return out
+}
+
+// closerBlockedOnLock: some goroutine is inside CloseWithErr waiting for a mutex (the sweeper behind
+// connLock while the receive loop's dial is in flight).
+func closerBlockedOnLock() bool {
+	buf := make([]byte, 1<<20)
+	buf = buf[:runtime.Stack(buf, true)]
+	for _, g := range strings.Split(string(buf), "\n\n") {
+		if strings.Contains(g, "udpSessionEntry).CloseWithErr") && strings.Contains(g, "sync.(*Mutex).") {
+			return true
+		}
+	}
+	return false
 }
 
 // ---------------------------------------------------------------- udpacl (C08, one session, exact cache)
@@ -1402,6 +1511,13 @@ func genSession(r *vh.RNG, n int, emit func(op string, tags ...string)) {
 				default:
 					emit("release "+env(), "s:release")
 					holding = false
+				}
+				total++
+			case c < 3: // first dial still in flight when the sweep finds the entry idle
+				m := &protocol.UDPMessage{SessionID: sid, PacketID: uint16(r.Intn(4)), FragCount: 1, Addr: pool[r.Intn(len(pool))], Data: payload(r.Range(2, 12))}
+				emit("slowdial "+msgLine(m)+" "+env(), "s:slowdial")
+				if dials < 3 || r.Chance(1, 3) {
+					dials++
 				}
 				total++
 			case c < 30: // complete datagram
